@@ -148,8 +148,7 @@ pub fn msg_class(msg: &str) -> String {
       out.push(c);
     }
   }
-  out.truncate(80);
-  out
+  out.chars().take(80).collect()
 }
 
 /// Run product code; Err((location, message)) if it panicked.
